@@ -541,13 +541,14 @@ def minimize_subcircuits(
                     # by the leaf itself
                     continue
                 new_output = outputs_mapping[output]
-                for user in circuit.get_gate_users(output):
+                for user in list(circuit.get_gate_users(output)):
                     new_operands = tuple(
                         new_output if operand == output else operand
                         for operand in circuit.get_gate(user).operands
                     )
                     circuit.get_gate(user)._operands = new_operands
-                    circuit._gate_to_users[new_output].append(user)
+                    circuit._add_user(new_output, user)
+                    circuit._remove_user(output, user)
                 circuit._outputs = [
                     new_output if x == output else x for x in circuit._outputs
                 ]
